@@ -18,6 +18,12 @@ def run(run):
         extra = {'objects': pc.objects, 'properties': pc.properties, 'bools': pc.bools}
         got = {}
         with guard(run, 'concept generators', [pc.line, 'fcbo', 'fcbodual']):
+            if run.evaluations % 2:
+                # partly consumed and abandoned iterators first: later calls must be unaffected
+                for name in ('iterconcepts', 'fast_generate_from', 'fcbo_dual'):
+                    it = iter(getattr(algorithms, name)(pc.ctx))
+                    next(it, None)
+                    del it
             for name in ('fast_generate_from', 'fcbo_dual', 'iterconcepts', 'get_concepts'):
                 out = list(getattr(algorithms, name)(pc.ctx))
                 got[name] = [(pc.omask(e.members()), pc.pmask(i.members())) for e, i in out]
